@@ -1,5 +1,6 @@
 import PwVerif.Proofs.Recovery
 import PwVerif.Proofs.ExecFin
+import PwVerif.Proofs.Storage
 import PwVerif.Props.C01
 import PwVerif.Props.C06
 /-!
@@ -324,6 +325,51 @@ theorem C08_checkpoint_mid_partial {cfg d c s rs} (wf : WF d) (rank : Nat → Na
   refine ⟨fun i hm => ?_, fun i hi => h2 i hi rfl, h2 c hcd rfl⟩
   simpa [Fix.sym, Fix.none] using h1 i hm
 
+/-! ## the file after a HISTORY of cuts (several checkpoints in one run; a failure, a resume, a second failure)
+
+Every cut is saved to the same name; whether plain `pickle` can serialise the graph may change from one
+save to the next (`Content.ok` lands as `.pckl`, `Content.pickleFails` — e.g. a node output that is a
+closure — as `.cpckl`), and `_load` prefers `.pckl`.  The file-system model is C19's (`Model/Storage.lean`). -/
+
+/-- the saves of cuts `1, 2, …` in order, each with its own picklability -/
+def savesFS (cfg : Storage.Cfg) (cls : Storage.Cls) : Storage.FS → Nat → List Storage.Content → Storage.FS
+  | fs, _, [] => fs
+  | fs, v, c :: cs => savesFS cfg cls (Storage.saveFS cfg fs c cls v) (v + 1) cs
+
+/-- whatever was saved before, in whatever form: what `Node.load` reads after the save of cut `v` is cut `v` -/
+theorem C08_file_holds_last_cut (cfg : Storage.Cfg) (cls : Storage.Cls) (fs : Storage.FS) (v0 : Nat)
+    (earlier : List Storage.Content) (c : Storage.Content) (hc : c ≠ .bothFail) :
+    Storage.storageLoad (savesFS cfg cls fs v0 (earlier ++ [c])) = .ok cls (v0 + earlier.length) := by
+  induction earlier generalizing fs v0 with
+  | nil => simpa [savesFS] using Storage.save_last_wins cfg fs c cls v0 hc
+  | cons e es ih =>
+    simp only [List.cons_append, savesFS, List.length_cons]
+    rw [ih]; congr 1; omega
+
+/-- the history of the seeded change C08-2 on the code as it is: cut 1 plain-picklable, cut 2 only by
+cloudpickle — the second recovery file is what loads, and no `.pckl` is left to shadow it -/
+example : let fs := savesFS Storage.Cfg.current Storage.Cls.graph Storage.FS.init 1 [.ok, .pickleFails]
+    Storage.storageLoad fs = .ok Storage.Cls.graph 2 ∧ fs.pckl = .absent := by decide +kernel
+
+/-! ### a resumed run that fails again (`rstepF`), and the resume from the SECOND recovery file -/
+
+def rrunActsF (fails : Nat → Bool) (fx : Fix) (cfg : Cfg) (d : Dag) (rs : RS) : List Act → Option RS
+  | [] => some rs
+  | a :: as => match rstepF fails fx cfg d rs a with
+    | some rs' => rrunActsF fails fx cfg d rs' as
+    | none => none
+
+/-- with no failing function a run of `rstepF` is a run of the machine the theorems above are about -/
+theorem C08_refail_conservative (fx : Fix) (cfg : Cfg) (d : Dag) (rs : RS) (acts : List Act) :
+    rrunActsF (fun _ => false) fx cfg d rs acts = rrunActs fx cfg d rs acts := by
+  induction acts generalizing rs with
+  | nil => rfl
+  | cons a as ih =>
+    simp only [rrunActsF, rrunActs, rstepF_nofail]
+    cases h : rstep fx cfg d rs a with
+    | none => rfl
+    | some r => exact ih r
+
 /-! ### machine-checked counterexamples (all replayed on the real code by harness/pwh/c08.py) -/
 
 theorem affected_all (fx : Fix) (d : Dag) : Affected fx d (fun _ => true) := ⟨fun _ _ => rfl, fun _ _ _ _ => rfl⟩
@@ -568,6 +614,24 @@ example : ((rrunActs exFx Cfg.repaired exF.toDag (resumeFrom RCfg.mid exF.toDag 
       (fun r => (r.s.phase, r.s.execLog, [0, 1, 2, 3, 4].map r.fcalls, r.s.out 4)))
     = some (.exited, [0, 2, 1, 4, 3], [0, 0, 1, 1, 1], .app 9 [.app 0 []]) := by decide +kernel
 
+/-- two failures in a row on `exF`: the run resumed from `exS` fails again at `3`; the file written then
+(`RS.snapshot`) shows `0, 1, 2, 4` completed and `3` failed; the run resumed from THAT file calls `3` only
+and ends where an uninterrupted run ends -/
+def ex2Fails : Nat → Bool := fun i => i == 3
+def ex2Acts : List Act := [.start, .deliver, .deliver, .deliver, .deliver, .deliver, .exit]
+theorem ex2Some : (rrunActsF ex2Fails Fix.none Cfg.repaired exF.toDag (resumeFrom RCfg.now exF.toDag exS) ex2Acts).isSome = true := by
+  decide +kernel
+def ex2RS : RS := (rrunActsF ex2Fails Fix.none Cfg.repaired exF.toDag (resumeFrom RCfg.now exF.toDag exS) ex2Acts).get ex2Some
+
+example : (ex2RS.s.phase, ex2RS.s.errs, [0, 1, 2, 3, 4].map ex2RS.s.st, [0, 1, 2, 3, 4].map ex2RS.fcalls)
+    = (.exited, [3], [.done, .done, .done, .failed, .done], [0, 0, 1, 1, 0]) := by decide +kernel
+
+example : ((rrunActs Fix.none Cfg.repaired exF.toDag
+      (resumeInit RCfg.now (fun _ => false) exF.toDag ex2RS.snapshot.clearFlags)
+      [.start, .deliver, .deliver, .deliver, .deliver, .deliver, .exit]).map
+      (fun r => (r.s.phase, r.s.errs, [0, 1, 2, 3, 4].map r.fcalls, r.s.out 3)))
+    = some (.exited, [], [0, 0, 0, 1, 0], .app 3 [.app 2 [.app 0 []], .app 1 [.app 0 []]]) := by decide +kernel
+
 /-- a checkpoint cut with a child in flight: `4` has just finished, `1` is out on its executor, `2` has failed -/
 def ckActs : List Act := [.start, .deliver, .deliver]
 theorem ckSome0 : (runActs Cfg.repaired exF.toDag (init exF.toDag) ckActs).isSome = true := by decide +kernel
@@ -617,5 +681,7 @@ end PwVerif.C08
 #print axioms PwVerif.C08.C08_original_stale_cache_witness
 #print axioms PwVerif.C08.C08_load_refused_witness
 #print axioms PwVerif.C08.C08_reload_reverses_witness
+#print axioms PwVerif.C08.C08_file_holds_last_cut
+#print axioms PwVerif.C08.C08_refail_conservative
 #print axioms PwVerif.C08.C08_recovery_root_only
 #print axioms PwVerif.C08.C08_checkpoint_at_root
